@@ -17,6 +17,13 @@ pub uninterp spec fn w_flag_swapped(a: &AtomicBool, new: bool, prev: bool) -> bo
 fn flag_swap(a: &AtomicBool, v: bool, o: Ordering) -> (r: bool)
     ensures w_flag_swapped(a, v, r),
 { a.swap(v, o) }
+/// the flag has been read as `v` while the user data was in state `d` (ghost argument, erased): lets a contract say that
+/// NO user code ran between a stop check and what follows it -- user code gets `&mut Data` and may leave it in any state
+pub uninterp spec fn w_flag_loaded_at<D>(a: &AtomicBool, v: bool, d: D) -> bool;
+#[verifier::external_body]
+fn flag_load_at<D>(a: &AtomicBool, o: Ordering, Ghost(d): Ghost<D>) -> (r: bool)
+    ensures w_flag_loaded(a, r), w_flag_loaded_at(a, r, d),
+{ a.load(o) }
 impl<'l, Data> EventLoop<'l, Data> {
     pub closed spec fn stop_flag(&self) -> &AtomicBool { &self.signals.stop }
     pub closed spec fn ready_flag(&self) -> &AtomicBool { &self.signals.future_ready }
@@ -66,7 +73,11 @@ impl LoopSignal {
 //@ open src/loop_logic.rs / impl EventLoop<'l, Data>
 //@ item src/loop_logic.rs / impl EventLoop<'l, Data> / fn run props=C11 ret=r
 //@ rw R19 * <<self.signals.stop.store(>> => <<flag_store(&self.signals.stop, >>
-//@ rw R19 * <<self.signals.stop.load(>> => <<flag_load(&self.signals.stop, >>
+//@ rw R19 * <<self.signals.stop.load(Ordering::Acquire)>> => <<flag_load_at(&self.signals.stop, Ordering::Acquire, Ghost(*data))>>
+//@ before <<self.dispatch(timeout, data)?;>>
+            // C11 ("at most the iteration in progress"): a new iteration is entered only right after a stop check that said
+            // "not stopped" -- no user code (the per-iteration closure) between the check and the dispatch
+            assert(w_flag_loaded_at(self.stop_flag(), false, *data));
 //@ pre
     #[verifier::exec_allows_no_decreases_clause]
 //@ spec
@@ -88,7 +99,10 @@ impl LoopSignal {
 impl<'l, Data> EventLoop<'l, Data> {
 //@ slice src/loop_logic.rs / impl EventLoop<'l, Data> / fn block_on :: after <<let mut context = Context::from_waker(&waker);>> props=C11 name=EventLoop::block_on::loop
 //@ rw R19 * <<self.signals.stop.store(>> => <<flag_store(&self.signals.stop, >>
-//@ rw R19 * <<self.signals.stop.load(>> => <<flag_load(&self.signals.stop, >>
+//@ rw R19 * <<self.signals.stop.load(Ordering::Acquire)>> => <<flag_load_at(&self.signals.stop, Ordering::Acquire, Ghost(*data))>>
+//@ before <<self.dispatch_events(None, data)?;>>
+            // C11: an iteration is entered only right after a stop check that said "not stopped" (no per-iteration closure in between)
+            assert(w_flag_loaded_at(self.stop_flag(), false, *data));
 //@ rw R19 * <<self.signals.future_ready.store(>> => <<flag_store(&self.signals.future_ready, >>
 //@ rw R19 * <<self.signals.future_ready.swap(>> => <<flag_swap(&self.signals.future_ready, >>
 //@ rw R21 1 <<future.as_mut().poll(&mut context)>> => <<poll_pinned(&mut *future, &mut context)>>
